@@ -421,6 +421,27 @@ def check_default_ids(ctx, case):
                          'identifier order / filter functions')
     else:
         probs.append('default identifiers written out explicitly give an unequal pulse')
+    # some operators with identifiers of their own (of any length), the others with default ones: every given
+    # identifier is stored verbatim, the lookup by it works, and the pulse equals the one with all
+    # identifiers written out
+    given = {1: 'X_drive_channel', 3: 'detuning', n - 1: 'Q'} if n >= 5 else \
+        ({1: 'X_drive_channel'} if n >= 2 else {})
+    Hm = [[o, [float(k)]] + ([given[k]] if k in given else []) for k, o in enumerate(ops)]
+    Hf = [[o, [float(k)], given.get(k, f'A_{k}')] for k, o in enumerate(ops)]
+    try:
+        pm = ff.PulseSequence(Hm, [[ops[0], [1.0]]], [1.0])
+        pf = ff.PulseSequence(Hf, [[ops[0], [1.0]]], [1.0])
+        for k, name in given.items():
+            hits = [j for j, i in enumerate(pm.c_oper_identifiers) if str(i) == name]
+            if len(hits) != 1 or not np.array_equal(pm.c_opers[hits[0]], ops[k]):
+                probs.append(f'given identifier {name!r} is not stored with its operator '
+                             f'(stored: {list(pm.c_oper_identifiers)[:6]})')
+                break
+        if not (pm == pf) or list(pm.c_oper_identifiers) != list(pf.c_oper_identifiers):
+            probs.append('mixed given / default identifiers: unequal to the pulse with all identifiers written out')
+    except ValueError as e:
+        if n >= 2:
+            probs.append(f'mixed given / default identifiers rejected: {e}')
     ctx.count(('ids', n))
     if probs:
         ctx.fail('default_identifiers', case, probs, 'distinct deterministic identifiers',
